@@ -22,6 +22,8 @@ package agreement
 // (cert vote P_S); deadline timeout (next vote P_S, step 3); two foreign next votes for P_S
 // (period 1, re-proposal of P_S); filter timeout of period 1 (soft vote P_S in period 1).
 // H2: as H1 but P_L arrives BEFORE the filter timeout, so every vote is for P_L.
+// H3: as H1 but the crash-DB commit of the period-0 soft attest is made to FAIL (verifhook
+// fault injection): the soft vote must be dropped (no vote without persisted state).
 // Recorded, interleaved: every db.commit.post of the crash DB (with a copy of the DB files)
 // and every own vote handed to Network.Broadcast/Relay.
 //
@@ -46,8 +48,17 @@ package agreement
 // fast-recovery votes (late/redo/down); more than one round; schedules other than
 // "quiescence after every stimulus".
 //
-// MUTANTS (bin/mut C02 ... --only): pseudonodeAction.persistent() returning false;
-// close(persistStateDone) right after creating it in the attest branch — both DETECTED.
+// Both the ledger gate and a second gate at db.commit.pre of the crash DB are opened only at
+// quiescence (uncrashed runs), so every vote that CAN leave before the commit does leave before
+// it: the verdict of oracle A does not depend on goroutine timing.
+//
+// MUTANTS (bin/mut C02 ... --only):
+//   Ma actions.go pseudonodeAction.persistent() returns false                      DETECTED (A and B)
+//   Mb actions.go attest branch: persistStateDone pre-signalled                    MISSED = equivalent:
+//      demux.prioritize(persistCompleteEvents) before prioritize(voteEvents) still holds the votes
+//      back until the checkpoint event (second safeguard); not property-breaking on its own
+//   Mb' = Mb + the two prioritize calls swapped (vote queue ahead of the checkpoint) DETECTED (A and B)
+//   Mc persistence.go asyncPersistenceLoop.loop: checkpointEvent sent before persist() DETECTED (A and B)
 
 import (
 	"context"
@@ -332,7 +343,7 @@ func (l *c02iiLedger) note(s string) {
 func (l *c02iiLedger) EnsureValidatedBlock(e ValidatedBlock, c Certificate) {
 	l.note("EnsureValidatedBlock")
 }
-func (l *c02iiLedger) EnsureBlock(e bookkeeping.Block, c Certificate)    { l.note("EnsureBlock") }
+func (l *c02iiLedger) EnsureBlock(e bookkeeping.Block, c Certificate)   { l.note("EnsureBlock") }
 func (l *c02iiLedger) EnsureDigest(c Certificate, v *AsyncVoteVerifier) { l.note("EnsureDigest") }
 
 // ---------------------------------------------------------------------------------------------
@@ -447,6 +458,24 @@ type c02iiRecorder struct {
 	snapDir string
 	led     *c02iiLedger
 	herr    error
+
+	gated      bool
+	commitGate chan struct{} // a crash-DB transaction parked at db.commit.pre (gated runs)
+	failOcc    int           // occurrence index of the crash-DB commit to fail (-1: none)
+	preSeen    int
+	failed     bool
+}
+
+// openCommitGate lets the transaction parked at db.commit.pre (if any) commit.
+func (rc *c02iiRecorder) openCommitGate() bool {
+	rc.mu.Lock()
+	defer rc.mu.Unlock()
+	if rc.commitGate == nil {
+		return false
+	}
+	close(rc.commitGate)
+	rc.commitGate = nil
+	return true
 }
 
 func (rc *c02iiRecorder) add(e c02iiEvent) {
@@ -480,6 +509,9 @@ func (rc *c02iiRecorder) onSend(via string, tag protocol.Tag, data []byte) {
 		held = rc.led.gate != nil
 		rc.led.mu.Unlock()
 	}
+	rc.mu.Lock()
+	held = held || rc.commitGate != nil
+	rc.mu.Unlock()
 	rc.add(c02iiEvent{Kind: "vote", Via: via, ID: c02iiVoteID{uv.R.Round, uv.R.Period, uv.R.Step}, Value: uv.R.Proposal, Held: held})
 }
 
@@ -504,12 +536,40 @@ func c02iiCopyDB(src, dstDir string) error {
 
 // hook is the verifhook handler: every successful commit of the crash DB is a durable step.
 func (rc *c02iiRecorder) hook(name string, args ...any) error {
-	if name != "db.commit.post" || len(args) < 3 {
+	if len(args) < 2 {
 		return nil
 	}
 	h, _ := args[0].(*sql.DB)
 	ro, _ := args[1].(bool)
 	if h != rc.crashDB || ro {
+		return nil
+	}
+	if name == "db.commit.pre" {
+		// gated runs: park the commit until everything else has come to rest
+		rc.mu.Lock()
+		var g chan struct{}
+		if rc.gated {
+			g = make(chan struct{})
+			rc.commitGate = g
+		}
+		rc.mu.Unlock()
+		if g != nil {
+			<-g
+		}
+		rc.mu.Lock()
+		occ := rc.preSeen
+		rc.preSeen++
+		inject := occ == rc.failOcc && !rc.failed
+		if inject {
+			rc.failed = true
+		}
+		rc.mu.Unlock()
+		if inject {
+			return fmt.Errorf("verif: injected crash-DB commit failure")
+		}
+		return nil
+	}
+	if name != "db.commit.post" || len(args) < 3 {
 		return nil
 	}
 	if cerr, _ := args[2].(error); cerr != nil {
@@ -582,7 +642,7 @@ type c02iiNode struct {
 	svc   *Service
 }
 
-func c02iiStartNode(env *c02iiEnv, dbPath, snapDir string, gated bool) (*c02iiNode, error) {
+func c02iiStartNode(env *c02iiEnv, dbPath, snapDir string, gated bool, failOcc int) (*c02iiNode, error) {
 	n := &c02iiNode{env: env}
 	n.led = &c02iiLedger{env: env, gated: gated}
 	n.clock = c02iiNewClock()
@@ -591,7 +651,7 @@ func c02iiStartNode(env *c02iiEnv, dbPath, snapDir string, gated bool) (*c02iiNo
 		return nil, err
 	}
 	n.acc = acc
-	n.rc = &c02iiRecorder{self: env.addrs[env.self], crashDB: acc.Handle, dbPath: dbPath, snapDir: snapDir, led: n.led}
+	n.rc = &c02iiRecorder{self: env.addrs[env.self], crashDB: acc.Handle, dbPath: dbPath, snapDir: snapDir, led: n.led, gated: gated, failOcc: failOcc}
 	n.net = c02iiNewNet(n.rc)
 	lg := logging.NewLogger()
 	lg.SetOutput(io.Discard)
@@ -612,7 +672,13 @@ func c02iiStartNode(env *c02iiEnv, dbPath, snapDir string, gated bool) (*c02iiNo
 }
 
 func (n *c02iiNode) stop() {
+	n.rc.mu.Lock()
+	n.rc.gated = false
+	n.rc.mu.Unlock()
+	n.rc.openCommitGate()
+	n.led.openGate()
 	n.svc.Shutdown()
+	n.rc.openCommitGate()
 	n.led.openGate()
 	synctest.Wait()
 	verifhook.SetHandler(nil)
@@ -620,12 +686,13 @@ func (n *c02iiNode) stop() {
 	synctest.Wait()
 }
 
-// settle waits for quiescence; a persist request held at the gate is released only once
-// everything else has come to rest, and the procedure repeats until nothing moves.
+// settle waits for quiescence; a persist request held at the ledger gate, or a crash-DB
+// transaction parked at db.commit.pre, is released only once everything else has come to
+// rest, and the procedure repeats until nothing moves.
 func (n *c02iiNode) settle() {
 	for i := 0; i < 64; i++ {
 		synctest.Wait()
-		if !n.led.openGate() {
+		if !n.led.openGate() && !n.rc.openCommitGate() {
 			return
 		}
 	}
@@ -681,11 +748,11 @@ type c02iiHist struct {
 
 // c02iiHistory: the uncrashed run. lowFirst: the competing lower-credential proposal arrives
 // before the filter timeout (H2) or after the soft vote (H1).
-func c02iiHistory(t *testing.T, env *c02iiEnv, dbPath, snapDir string, lowFirst bool) (h *c02iiHist, err error) {
+func c02iiHistory(t *testing.T, env *c02iiEnv, dbPath, snapDir string, lowFirst bool, failOcc int) (h *c02iiHist, err error) {
 	h = &c02iiHist{}
 	synctest.Test(t, func(t *testing.T) {
 		var n *c02iiNode
-		n, err = c02iiStartNode(env, dbPath, snapDir, true)
+		n, err = c02iiStartNode(env, dbPath, snapDir, true, failOcc)
 		if err != nil {
 			return
 		}
@@ -762,7 +829,7 @@ var c02iiConts = []c02iiCont{
 func c02iiRestart(t *testing.T, env *c02iiEnv, dbPath, snapDir string, c c02iiCont, h *c02iiHist) (evs []c02iiEvent, err error) {
 	synctest.Test(t, func(t *testing.T) {
 		var n *c02iiNode
-		n, err = c02iiStartNode(env, dbPath, snapDir, false)
+		n, err = c02iiStartNode(env, dbPath, snapDir, false, -1)
 		if err != nil {
 			return
 		}
@@ -881,13 +948,14 @@ func TestVerif_C02_service(t *testing.T) {
 	for _, hist := range []struct {
 		Name     string
 		LowFirst bool
-	}{{"H1-ownProposalVoted", false}, {"H2-otherProposalVoted", true}} {
+		FailOcc  int // crash-DB commit occurrence made to fail (0 is the table creation)
+	}{{"H1-ownProposalVoted", false, -1}, {"H2-otherProposalVoted", true, -1}, {"H3-softVotePersistFails", false, 1}} {
 		if wantReplay != nil && wantReplay.History != hist.Name {
 			continue
 		}
 		hdir := filepath.Join(scratch, hist.Name)
 		_ = os.MkdirAll(hdir, 0o755)
-		h, err := c02iiHistory(t, env, filepath.Join(hdir, "crash.sqlite"), filepath.Join(hdir, "snap"), hist.LowFirst)
+		h, err := c02iiHistory(t, env, filepath.Join(hdir, "crash.sqlite"), filepath.Join(hdir, "snap"), hist.LowFirst, hist.FailOcc)
 		if err != nil {
 			t.Fatalf("HARNESS-FAILURE history %s: %v", hist.Name, err)
 		}
@@ -906,6 +974,12 @@ func TestVerif_C02_service(t *testing.T) {
 		run.Sample(map[string]any{"history": hist.Name, "events": seq})
 		// non-vacuity of the history: soft, cert, next of period 0 and soft of period 1
 		need := map[c02iiVoteID]bool{{1, 0, soft}: false, {1, 0, cert}: false, {1, 0, next}: false, {1, 1, soft}: false}
+		if hist.FailOcc >= 0 {
+			// the persist of the period-0 soft attest fails: that vote must be dropped (oracle A
+			// flags it otherwise); without it no soft quorum forms, the node next-votes bottom
+			need = map[c02iiVoteID]bool{{1, 0, next}: false}
+			voted = bottom
+		}
 		for _, e := range evs {
 			if e.Kind == "vote" {
 				if _, ok := need[e.ID]; ok {
@@ -1024,7 +1098,7 @@ func TestVerif_C02_service(t *testing.T) {
 	run.Set("restarts", restarts)
 	run.Set("own_votes_checked_released_after_persist", votesChecked)
 	run.Set("crash_db_commits_recorded", commits)
-	n := run.Finish(ve.Coverage{Rule: "2 histories of the real agreement.Service (round 1, periods 0-1) x every prefix of the recorded commit/vote sequence x 3 tempting continuations; oracle A on every own vote of step >= soft", Exhaustive: true})
+	n := run.Finish(ve.Coverage{Rule: "3 histories of the real agreement.Service (round 1, periods 0-1; one with an injected crash-DB commit failure) x every prefix of the recorded commit/vote sequence x 3 tempting continuations (restart on the crash-DB copy); oracle A (released => persisted) on every own vote of step >= soft", Exhaustive: true})
 	if n > 0 {
 		t.Fatalf("%d violation(s)", n)
 	}
